@@ -29,7 +29,7 @@ ASSUMPTIONS = ["kernel / mean / constraint forward passes are trusted here (C05,
                "skip_logdet_forward is compared"]
 
 FAMS = ["exact", "matern_ard", "sumprod", "linearmean", "fixednoise", "fixednoise_learn", "multitask", "multitask_r0", "sgpr"]
-PRIORS = [(), ("ls",), ("const",), ("noise",), ("os",), ("os_box",), ("ls", "const", "noise", "os"), ("task",)]
+PRIORS = [(), ("ls",), ("const",), ("noise",), ("os",), ("os_box",), ("ls", "const", "noise", "os"), ("task",), ("shared",)]
 BATCHES = [((), ()), ((2,), (2,)), ((2,), ()), ((), (2,)), ((3, 2), (3, 2)), ((2,), (3, 2)), ((2,), (1,)), ((2,), (2, 2))]
 SHAPES = [(1, 1), (4, 2), (5, 1)]
 
@@ -58,8 +58,10 @@ def cells(tier, seed):
                 continue
             if len(mb) > 1 and fam != "exact":
                 continue
-        for path in ("chol", "cgval"):
+        for path in ("chol", "cgval", "nofast_lowchol"):
             if path == "cgval" and (obj != "mll" or pri or tier == "quick" and fam not in ("exact", "multitask", "fixednoise")):
+                continue
+            if path == "nofast_lowchol" and (pri or (tier == "quick" and (fam not in ("exact", "multitask", "fixednoise") or mb or db))):
                 continue
             out.append({"obj": obj, "fam": fam, "priors": list(pri), "mb": list(mb), "db": list(db), "shape": list(shp), "path": path})
     for k in (2, 3):
@@ -94,7 +96,15 @@ def prior_terms(model, B, mb):
     right-aligned in the broadcast batch B."""
     total = torch.zeros(torch.Size(B), dtype=F64)
     nb, k = len(B), len(mb)
-    for name, module, prior, closure, _ in model.named_priors():
+    # enumerate the registered priors independently of Module.named_priors (the code under test): walk every module's registry
+    registered = []
+    for _, module in model.named_modules():
+        for pname, entry in (getattr(module, "_priors", None) or {}).items():
+            if entry[0] is not None:
+                registered.append((module, entry[0], entry[1]))
+    if not registered and list(model.named_priors()):
+        registered = [(m_, p_, c_) for _, m_, p_, c_, _ in model.named_priors()]  # registry attribute renamed: fall back
+    for module, prior, closure in registered:
         val = closure(module)
         if val.dim() >= 2 and "LKJ" in type(prior).__name__:  # matrix-valued prior: one density per (non-batched) matrix
             total = total + prior.log_prob(val).reshape(()).expand(torch.Size(B))
@@ -164,6 +174,10 @@ def run_cell(cell, seed):
         if cell["path"] == "cgval":
             with S.max_cholesky_size(0), S.skip_logdet_forward(True), S.cg_tolerance(1e-12), S.max_cg_iterations(500), torch.no_grad():
                 torch.manual_seed(3)
+                val = mll(model(X), y, X) if model.fam.startswith("fixednoise") else mll(model(X), y)
+        elif cell["path"] == "nofast_lowchol":
+            # fast_computations(log_prob=False) selects the deterministic Cholesky path whatever max_cholesky_size says
+            with S.fast_computations(log_prob=False), S.max_cholesky_size(2):
                 val = mll(model(X), y, X) if model.fam.startswith("fixednoise") else mll(model(X), y)
         else:
             val = mll(model(X), y, X) if model.fam.startswith("fixednoise") else mll(model(X), y)
